@@ -1,4 +1,269 @@
 package props
 
-func c04Struct(c *Ctx) {}
-func c05Struct(c *Ctx) {}
+import (
+	"fmt"
+	"go/token"
+
+	"golang.org/x/tools/go/ssa"
+
+	"rtpcheck/bounds"
+	"rtpcheck/core"
+	"rtpcheck/lin"
+)
+
+// bufWrites lists the instructions of fn that write into parameter `buf` (stores through an
+// index, copy destinations, PutUintN destinations).
+func bufWrites(fn *ssa.Function, buf ssa.Value) []ssa.Instruction {
+	rootIsBuf := func(v ssa.Value) bool {
+		for i := 0; i < 6; i++ {
+			switch x := v.(type) {
+			case *ssa.Slice:
+				v = x.X
+				continue
+			case *ssa.IndexAddr:
+				v = x.X
+				continue
+			}
+			break
+		}
+		return v == buf
+	}
+	var out []ssa.Instruction
+	for _, b := range fn.Blocks {
+		for _, in := range b.Instrs {
+			switch x := in.(type) {
+			case *ssa.Store:
+				if _, ok := x.Addr.(*ssa.IndexAddr); ok && rootIsBuf(x.Addr) {
+					out = append(out, x)
+				}
+			case *ssa.Call:
+				switch {
+				case core.BuiltinName(x) == "copy" && rootIsBuf(x.Call.Args[0]):
+					out = append(out, x)
+				case len(x.Call.Args) >= 2 && (core.CalleeFullName(x) == "(encoding/binary.bigEndian).PutUint16" || core.CalleeFullName(x) == "(encoding/binary.bigEndian).PutUint32") && rootIsBuf(x.Call.Args[1]):
+					out = append(out, x)
+				}
+			}
+		}
+	}
+	return out
+}
+
+// sizeGuard finds `if X > len(buf) { return ..., err }` and returns the If.
+func sizeGuard(fn *ssa.Function, buf ssa.Value) *ssa.If {
+	for _, b := range fn.Blocks {
+		if len(b.Instrs) == 0 {
+			continue
+		}
+		iff, ok := b.Instrs[len(b.Instrs)-1].(*ssa.If)
+		if !ok {
+			continue
+		}
+		cmp, ok := iff.Cond.(*ssa.BinOp)
+		if !ok {
+			continue
+		}
+		isLen := func(v ssa.Value) bool {
+			call, ok := v.(*ssa.Call)
+			return ok && core.BuiltinName(call) == "len" && call.Call.Args[0] == buf
+		}
+		if (cmp.Op == token.GTR && isLen(cmp.Y)) || (cmp.Op == token.LSS && isLen(cmp.X)) {
+			// true successor must return a non-nil error
+			t := b.Succs[0]
+			if len(t.Instrs) > 0 {
+				if ret, ok := t.Instrs[len(t.Instrs)-1].(*ssa.Return); ok && len(ret.Results) == 2 && !core.IsNilConst(ret.Results[1]) {
+					return iff
+				}
+			}
+		}
+	}
+	return nil
+}
+
+func c04Struct(c *Ctx) {
+	p, r := c.Prog, c.R
+	n := 0
+	for _, name := range []string{"rtp.(Header).MarshalTo", "rtp.(*Packet).MarshalTo"} {
+		fn := p.Func(name)
+		if fn == nil {
+			r.Fatalf("anchor %s missing", name)
+			continue
+		}
+		var buf ssa.Value
+		for _, prm := range fn.Params {
+			if prm.Name() == "buf" {
+				buf = prm
+			}
+		}
+		if buf == nil {
+			r.Fatalf("%s: parameter buf not found", name)
+			continue
+		}
+		g := sizeGuard(fn, buf)
+		n++
+		r.Add("STRUCT.guard", name, "short destination is rejected by `size > len(buf)` before any write", p.Position(fn.Pos()), g != nil, "no guard comparing the required size with len(buf) that returns an error")
+		ws := bufWrites(fn, buf)
+		for _, w := range ws {
+			ok := g != nil && core.EdgeDominates(g.Block(), g.Block().Succs[1], w.Block())
+			n++
+			r.Add("STRUCT.guard", name, "write dominated by the size guard: "+p.TextAt(w.Pos(), w.String()), p.Position(w.Pos()), ok, "this write to buf can execute without the size check having passed")
+		}
+		// read-modify-write needs a dominating plain store of the same byte
+		for _, w := range ws {
+			st, ok := w.(*ssa.Store)
+			if !ok {
+				continue
+			}
+			or, ok := st.Val.(*ssa.BinOp)
+			if !ok || or.Op != token.OR {
+				continue
+			}
+			ld, ok := or.X.(*ssa.UnOp)
+			if !ok {
+				continue
+			}
+			r1, p1 := core.AddrKey(ld.X)
+			r2, p2 := core.AddrKey(st.Addr)
+			if r1 != r2 || p1 != p2 {
+				continue
+			}
+			plain := false
+			for _, w2 := range ws {
+				s2, ok := w2.(*ssa.Store)
+				if !ok || s2 == st {
+					continue
+				}
+				if _, isOr := s2.Val.(*ssa.BinOp); isOr {
+					if bo := s2.Val.(*ssa.BinOp); bo.Op == token.OR {
+						if l2, ok := bo.X.(*ssa.UnOp); ok {
+							ra, pa := core.AddrKey(l2.X)
+							if ra == r2 && pa == p2 {
+								continue // another |= of the same byte
+							}
+						}
+					}
+				}
+				ra, pa := core.AddrKey(s2.Addr)
+				if ra == r2 && pa == p2 && core.Precedes(s2, st) {
+					plain = true
+				}
+			}
+			n++
+			r.Add("STRUCT.rmw", name, "|= on "+p.TextAt(st.Pos(), "buf[k]")+" follows a plain store of that byte", p.Position(st.Pos()), plain, "the byte is or-ed into without having been assigned: the result depends on the previous buffer contents")
+		}
+		// zero fill: padding bytes are written explicitly
+		zeroLoop := false
+		for _, w := range ws {
+			if st, ok := w.(*ssa.Store); ok && inAnyLoop(st.Block()) {
+				if k, isC := core.ConstInt(st.Val); isC && k == 0 {
+					zeroLoop = true
+				}
+			}
+		}
+		n++
+		r.Add("STRUCT.zero", name, "padding octets are written as zero in a loop", p.Position(fn.Pos()), zeroLoop, "no loop storing 0 into buf: padding keeps the previous buffer contents")
+	}
+	r.Floor("C04 structural rule instances", n, 28)
+}
+
+// ---- C05 ----------------------------------------------------------------------------------------------
+
+func c05Struct(c *Ctx) {
+	p, r := c.Prog, c.R
+	n := 0
+	// effect-before-error
+	for _, name := range []string{"rtp.(*Header).SetExtension", "rtp.(*Header).DelExtension"} {
+		fn := p.Func(name)
+		if fn == nil {
+			r.Fatalf("anchor %s missing", name)
+			continue
+		}
+		recv := fn.Params[0]
+		var errBlocks []*ssa.BasicBlock
+		for _, b := range fn.Blocks {
+			if len(b.Instrs) == 0 {
+				continue
+			}
+			if ret, ok := b.Instrs[len(b.Instrs)-1].(*ssa.Return); ok && len(ret.Results) == 1 && !core.IsNilConst(core.Resolve(ret.Results[0])) {
+				errBlocks = append(errBlocks, b)
+			}
+		}
+		for _, b := range fn.Blocks {
+			for _, in := range b.Instrs {
+				st, ok := in.(*ssa.Store)
+				if !ok {
+					continue
+				}
+				root, path := core.AddrKey(st.Addr)
+				if root != ssa.Value(recv) {
+					continue
+				}
+				bad := ""
+				reach := core.Reachable(b)
+				for _, eb := range errBlocks {
+					if reach[eb] {
+						bad = p.Position(eb.Instrs[len(eb.Instrs)-1].Pos())
+					}
+				}
+				n++
+				r.Add("STRUCT.effect", name, "store to h"+path+" cannot be followed by an error return", p.Position(st.Pos()), bad == "",
+					"after this store the error return at "+bad+" is still reachable: a failed call changes the header")
+			}
+		}
+		n++
+		r.Add("STRUCT.effect", name, "has error returns", p.Position(fn.Pos()), len(errBlocks) >= 1, "")
+	}
+	r.Floor("C05 effect rule instances", n, 6)
+}
+
+// c05Hooks: validation dominance with range entailment at every insertion into h.Extensions.
+func c05Hooks(c *Ctx) *bounds.Hooks {
+	p := c.Prog
+	se := p.Func("rtp.(*Header).SetExtension")
+	if se == nil {
+		return nil
+	}
+	recv, id, payload := se.Params[0], se.Params[1], se.Params[2]
+	return &bounds.Hooks{AtInstr: func(h *bounds.Helper, fn *ssa.Function, in ssa.Instruction, d *bounds.Disjunct) {
+		if fn != se || h.Depth() != 0 {
+			return
+		}
+		st, ok := in.(*ssa.Store)
+		if !ok {
+			return
+		}
+		root, path := core.AddrKey(st.Addr)
+		isInsert := root == ssa.Value(recv) && path == ".Extensions"
+		if fa, ok := st.Addr.(*ssa.FieldAddr); ok && core.FieldName(fa) == "payload" {
+			if _, isIdx := fa.X.(*ssa.IndexAddr); isIdx {
+				isInsert = true // replacing the value of an existing element
+			}
+		}
+		if !isInsert {
+			return
+		}
+		prof := d.MemInt(recv, ".ExtensionProfile")
+		if prof == nil {
+			h.Oblige("insertion: extension profile known on this path", false, "the profile in force is not determined where the element is stored")
+			return
+		}
+		idl, ln := d.Int(id), d.Len(payload)
+		eq := func(k int64) bool { return d.Entails(lin.EQ(prof, lin.Const(k))...) }
+		ne := func(k int64) bool { return !d.Satisfiable(lin.EQ(prof, lin.Const(k))...) }
+		switch {
+		case eq(0xBEDE):
+			okv := d.Entails(lin.GE(idl, lin.Const(1)), lin.LE(idl, lin.Const(14)), lin.GE(ln, lin.Const(1)), lin.LE(ln, lin.Const(16)))
+			h.Oblige("insertion under the one-byte profile: id in 1..14 and 1..16 value bytes", okv, "a one-byte element outside RFC 8285 4.2 can be stored: "+d.Describe(lin.GE(ln, lin.Const(1))))
+		case eq(0x1000):
+			okv := d.Entails(lin.GE(idl, lin.Const(1)), lin.LE(ln, lin.Const(255)))
+			h.Oblige("insertion under the two-byte profile: id in 1..255 and at most 255 value bytes", okv, "a two-byte element outside RFC 8285 4.3 can be stored")
+		case ne(0xBEDE) && ne(0x1000):
+			okv := d.Entails(lin.EQ(idl, lin.Const(0))...)
+			h.Oblige("insertion under a legacy profile: id = 0", okv, "a legacy (RFC 3550) extension with a non-zero id can be stored")
+		default:
+			h.Oblige("insertion: extension profile known on this path", false, "the profile in force is not determined where the element is stored")
+		}
+	}}
+}
+
+var _ = fmt.Sprintf
